@@ -107,6 +107,11 @@ Ltac head_scrut e :=
   end.
 
 Ltac conv E :=
+  lazymatch type of E with
+  | negb _ = true => apply negb_true_iff in E
+  | negb _ = false => apply negb_false_iff in E
+  | _ => idtac
+  end;
   try (apply N.eqb_neq in E); try (apply N.eqb_eq in E);
   try (pose proof (cbin_nz _ _ E)); try (pose proof (cbinqs_nz _ E));
   try (pose proof (is_quote_nz _ E)).
@@ -605,9 +610,6 @@ Proof.
   - split; [exact A'|exact I].
 Qed.
 
-#[local] Hint Resolve good_alive at_end_alive alive_nofault move_good move_nofault
-  set_found_good set_found_alive set_found_nofault : safe.
-
 Ltac sfwd :=
   repeat match goal with
   | H : _ /\ _ |- _ => destruct H
@@ -622,18 +624,33 @@ Ltac sfwd :=
       let X := fresh in assert (X : cur s <> None) by congruence; specialize (H X)
   end.
 
-Ltac sauto := first [ assumption | lia | congruence | solve [eauto 8 with safe] ].
+Ltac salive :=
+  lazymatch goal with
+  | |- good (move ?s) => apply move_good; salive
+  | |- good (set_found ?s) => apply set_found_good; salive
+  | |- good _ => assumption
+  | |- at_end _ => assumption
+  | |- alive (set_found ?s) => apply set_found_alive; salive
+  | |- alive _ =>
+      first [ assumption | apply good_alive; salive | apply at_end_alive; assumption ]
+  | |- fault (move ?s) = false => apply move_nofault; salive
+  | |- fault (set_found ?s) = false => apply set_found_nofault; salive
+  | |- fault _ = false => first [ assumption | apply alive_nofault; salive ]
+  end.
+
+Ltac sauto := first [ assumption | solve [salive] | lia | congruence ].
 
 Ltac sf_post :=
-  first [ solve [eauto 8 with safe]
-        | split; [ solve [eauto 8 with safe]
+  first [ solve [salive]
+        | split; [ solve [salive]
                  | first [ reflexivity | congruence
-                         | intro; first [ discriminate | congruence | solve [eauto 8 with safe] ] ] ] ].
+                         | intro; first [ discriminate | congruence | solve [salive] ] ] ] ].
 
 Ltac sf_leaf :=
+  repeat match goal with |- context [if ?b then _ else _] => destruct b end;
   unfold safe2, safe3, safep, Qd in *; cbn [fst snd is_container_or_string] in *; sfwd;
-  first [ solve [eauto 8 with safe]
-        | split; [ solve [eauto 8 with safe]
+  first [ solve [salive]
+        | split; [ solve [salive]
                  | intro; try discriminate; sfwd; sf_post ] ].
 
 Ltac sf_leaf_hook := sf_leaf.
@@ -896,5 +913,198 @@ Proof.
     by (destruct (Nat.eqb (length buf) 63); [apply current_alive; exact H | exact H]).
   revert X. generalize (if Nat.eqb (length buf) 63 then snd (current s1) else s1). intros s2 X.
   destruct (parse_number cf buf); cbn [jv_of_number]; try sf_leaf.
-  unfold jv_of_double. destruct (use_double cf); [destruct (f_eq _ _)|]; sf_leaf.
+  unfold jv_of_double. destruct (use_double cf);
+    [match goal with |- context [if ?b then JFloat _ else _] => destruct b end|]; sf_leaf.
+Qed.
+
+Ltac s_lex2 h :=
+  lazymatch h with
+  | parse_key ?cf ?f ?X =>
+      let A := fresh "A" in assert (A : alive X) by sauto;
+      pose proof (parse_key_safe cf f X A); destruct (parse_key cf f X) as [[? ?] ?]
+  | skip_key ?f ?X =>
+      let A := fresh "A" in assert (A : alive X) by sauto;
+      pose proof (skip_key_safe f X A); destruct (skip_key f X) as [? ?]
+  | parse_quoted_string ?cf ?f ?X =>
+      let A := fresh "A" in let B := fresh "B" in
+      assert (A : good X) by sauto; assert (B : cur X <> None) by sauto;
+      pose proof (parse_quoted_string_safe cf f X A B);
+      destruct (parse_quoted_string cf f X) as [[? ?] ?]
+  | skip_quoted_string ?f ?X =>
+      let A := fresh "A" in let B := fresh "B" in
+      assert (A : good X) by sauto; assert (B : cur X <> None) by sauto;
+      pose proof (skip_quoted_string_safe f X A B); destruct (skip_quoted_string f X) as [? ?]
+  | parse_numeric_value ?cf ?X =>
+      let A := fresh "A" in assert (A : alive X) by sauto;
+      pose proof (parse_numeric_value_safe cf X A);
+      destruct (parse_numeric_value cf X) as [[? ?] ?]
+  | skip_numeric_loop ?cf ?f ?X =>
+      let A := fresh "A" in assert (A : alive X) by sauto;
+      pose proof (skip_numeric_loop_safe cf f X A); destruct (skip_numeric_loop cf f X) as [? ?]
+  | _ => s_lex1 h
+  end.
+
+Section ContainersSafe.
+  Variable cf : cfg.
+  Variable pv : filter -> ps -> code * jv * ps.
+  Variable sv : ps -> code * ps.
+  Hypothesis pv_sf : forall f s, alive s -> safe3 Qd (pv f s).
+  Hypothesis sv_sf : forall s, alive s -> safe2 alive (sv s).
+
+  Lemma array_loop_safe : forall fuel ef acc s,
+    alive s -> safe3 (fun _ => good) (array_loop cf pv sv fuel ef acc s).
+  Proof.
+    induction fuel as [|fuel IH]; intros ef acc s A; cbn [array_loop].
+    - sf_leaf.
+    - sf_go ltac:(fun h => lazymatch h with
+        | array_loop cf pv sv fuel ?e ?a ?X =>
+            let A := fresh "A" in assert (A : alive X) by sauto;
+            pose proof (IH e a X A); destruct (array_loop cf pv sv fuel e a X) as [[? ?] ?]
+        | pv ?f ?X =>
+            let A := fresh "A" in assert (A : alive X) by sauto;
+            pose proof (pv_sf f X A); destruct (pv f X) as [[? ?] ?]
+        | sv ?X =>
+            let A := fresh "A" in assert (A : alive X) by sauto;
+            pose proof (sv_sf X A); destruct (sv X) as [? ?]
+        | _ => s_lex2 h end).
+  Qed.
+
+  Lemma skip_array_loop_safe : forall fuel s,
+    alive s -> safe2 good (skip_array_loop cf sv fuel s).
+  Proof.
+    induction fuel as [|fuel IH]; intros s A; cbn [skip_array_loop].
+    - sf_leaf.
+    - sf_go ltac:(fun h => lazymatch h with
+        | skip_array_loop cf sv fuel ?X =>
+            let A := fresh "A" in assert (A : alive X) by sauto;
+            pose proof (IH X A); destruct (skip_array_loop cf sv fuel X) as [? ?]
+        | sv ?X =>
+            let A := fresh "A" in assert (A : alive X) by sauto;
+            pose proof (sv_sf X A); destruct (sv X) as [? ?]
+        | _ => s_lex2 h end).
+  Qed.
+
+  Lemma object_loop_safe : forall fuel f acc s,
+    alive s -> safe3 (fun _ => good) (object_loop cf pv sv fuel f acc s).
+  Proof.
+    induction fuel as [|fuel IH]; intros f acc s A; cbn [object_loop].
+    - sf_leaf.
+    - sf_go ltac:(fun h => lazymatch h with
+        | object_loop cf pv sv fuel ?e ?a ?X =>
+            let A := fresh "A" in assert (A : alive X) by sauto;
+            pose proof (IH e a X A); destruct (object_loop cf pv sv fuel e a X) as [[? ?] ?]
+        | pv ?f ?X =>
+            let A := fresh "A" in assert (A : alive X) by sauto;
+            pose proof (pv_sf f X A); destruct (pv f X) as [[? ?] ?]
+        | sv ?X =>
+            let A := fresh "A" in assert (A : alive X) by sauto;
+            pose proof (sv_sf X A); destruct (sv X) as [? ?]
+        | _ => s_lex2 h end).
+  Qed.
+
+  Lemma skip_object_loop_safe : forall fuel s,
+    alive s -> safe2 good (skip_object_loop cf sv fuel s).
+  Proof.
+    induction fuel as [|fuel IH]; intros s A; cbn [skip_object_loop].
+    - sf_leaf.
+    - sf_go ltac:(fun h => lazymatch h with
+        | skip_object_loop cf sv fuel ?X =>
+            let A := fresh "A" in assert (A : alive X) by sauto;
+            pose proof (IH X A); destruct (skip_object_loop cf sv fuel X) as [? ?]
+        | sv ?X =>
+            let A := fresh "A" in assert (A : alive X) by sauto;
+            pose proof (sv_sf X A); destruct (sv X) as [? ?]
+        | _ => s_lex2 h end).
+  Qed.
+End ContainersSafe.
+
+Lemma skip_variant_safe : forall cf fuel L s,
+  alive s -> safe2 alive (skip_variant cf fuel L s).
+Proof.
+  intros cf fuel. induction L as [|L IH]; intros s A; cbn [skip_variant].
+  - sf_go s_lex2.
+  - sf_go ltac:(fun h => lazymatch h with
+      | skip_array_loop cf ?sv fuel ?X =>
+          let A := fresh "A" in assert (A : alive X) by sauto;
+          pose proof (skip_array_loop_safe cf sv IH fuel X A);
+          destruct (skip_array_loop cf sv fuel X) as [? ?]
+      | skip_object_loop cf ?sv fuel ?X =>
+          let A := fresh "A" in assert (A : alive X) by sauto;
+          pose proof (skip_object_loop_safe cf sv IH fuel X A);
+          destruct (skip_object_loop cf sv fuel X) as [? ?]
+      | _ => s_lex2 h end).
+Qed.
+
+Lemma parse_variant_safe : forall cf fuel L f s,
+  alive s -> safe3 Qd (parse_variant cf fuel L f s).
+Proof.
+  intros cf fuel. induction L as [|L IH]; intros f s A; cbn [parse_variant].
+  - sf_go ltac:(fun h => lazymatch h with
+      | skip_variant cf fuel ?l ?X =>
+          let A := fresh "A" in assert (A : alive X) by sauto;
+          pose proof (skip_variant_safe cf fuel l X A);
+          destruct (skip_variant cf fuel l X) as [? ?]
+      | _ => s_lex2 h end).
+  - sf_go ltac:(fun h => lazymatch h with
+      | skip_variant cf fuel ?l ?X =>
+          let A := fresh "A" in assert (A : alive X) by sauto;
+          pose proof (skip_variant_safe cf fuel l X A);
+          destruct (skip_variant cf fuel l X) as [? ?]
+      | array_loop cf ?pv ?sv fuel ?e ?a ?X =>
+          let A := fresh "A" in assert (A : alive X) by sauto;
+          pose proof (array_loop_safe cf pv sv IH (skip_variant_safe cf fuel L) fuel e a X A);
+          destruct (array_loop cf pv sv fuel e a X) as [[? ?] ?]
+      | object_loop cf ?pv ?sv fuel ?e ?a ?X =>
+          let A := fresh "A" in assert (A : alive X) by sauto;
+          pose proof (object_loop_safe cf pv sv IH (skip_variant_safe cf fuel L) fuel e a X A);
+          destruct (object_loop cf pv sv fuel e a X) as [[? ?] ?]
+      | _ => s_lex2 h end).
+Qed.
+
+(* ------------------------------------------------------------------------------------- *)
+(* (B) no read after the end of input *)
+Theorem parse_variant_no_fault : forall cf fuel L f s e v s',
+  alive s -> parse_variant cf fuel L f s = (e, v, s') ->
+  fault s' = false /\ (e = Ok -> alive s').
+Proof.
+  intros cf fuel L f s e v s' A H.
+  pose proof (parse_variant_safe cf fuel L f s A) as [F Q]. rewrite H in F, Q.
+  cbn [fst snd] in F, Q. split; [exact F|]. intro X. apply (Q X).
+Qed.
+
+Theorem skip_variant_no_fault : forall cf fuel L s e s',
+  alive s -> skip_variant cf fuel L s = (e, s') ->
+  fault s' = false /\ (e = Ok -> alive s').
+Proof.
+  intros cf fuel L s e s' A H.
+  pose proof (skip_variant_safe cf fuel L s A) as [F Q]. rewrite H in F, Q.
+  cbn [fst snd] in F, Q. split; [exact F|exact Q].
+Qed.
+
+Theorem json_run_no_fault : forall cf f L i, fault (j_st (json_run cf f L i)) = false.
+Proof.
+  intros cf f L i. unfold json_run.
+  destruct (parse_variant cf (json_fuel i) L f (ps_init i)) as [[e v] s'] eqn:E. cbn [j_st].
+  exact (proj1 (parse_variant_no_fault _ _ _ _ _ _ _ _ (good_alive _ (good_init i)) E)).
+Qed.
+
+(* (D) an unclosed string / array / object is never accepted *)
+Theorem closed_before_end : forall cf fuel L f s v s',
+  good s -> parse_variant cf fuel L f s = (Ok, v, s') ->
+  is_container_or_string v = true -> ended s' = false.
+Proof.
+  intros cf fuel L f s v s' G H C.
+  pose proof (parse_variant_safe cf fuel L f s (good_alive s G)) as [_ Q]. rewrite H in Q.
+  cbn [fst snd] in Q. destruct (Q eq_refl) as [_ Q']. destruct (Q' C) as [He _]. exact He.
+Qed.
+
+Theorem json_run_unclosed_never_accepted : forall cf f L i,
+  j_err (json_run cf f L i) = Ok -> is_container_or_string (j_doc (json_run cf f L i)) = true ->
+  ended (j_st (json_run cf f L i)) = false.
+Proof.
+  intros cf f L i. unfold json_run.
+  destruct (parse_variant cf (json_fuel i) L f (ps_init i)) as [[e v] s'] eqn:E.
+  cbn [j_err j_doc j_st]. intros He Hv.
+  destruct e; try discriminate He.
+  exact (closed_before_end _ _ _ _ _ _ _ (good_init i) E Hv).
 Qed.
